@@ -15,6 +15,7 @@ import (
 
 	"github.com/go-gts/gts"
 	"github.com/go-gts/gts/seqio"
+	"github.com/go-pars/pars"
 )
 
 type scanOutcome struct {
@@ -216,6 +217,32 @@ func runGrammarCase(c J, emit func(J)) {
 			f = func() (bool, string) { _, err := gts.AsMolecule(s); return err == nil, "" }
 		case "topology":
 			f = func() (bool, string) { _, err := gts.AsTopology(s); return err == nil, "" }
+		case "location":
+			f = func() (bool, string) {
+				loc, err := gts.AsLocation(s)
+				if err != nil {
+					return false, ""
+				}
+				// an accepted location must also be usable without crashing
+				_ = loc.String()
+				_ = loc.Len()
+				_ = loc.Region()
+				_ = loc.Complement().String()
+				return true, ""
+			}
+		case "ftable":
+			f = func() (bool, string) {
+				res, err := seqio.INSDCTableParser("").Parse(pars.FromString(s))
+				if err != nil {
+					return false, ""
+				}
+				ff, _ := res.Value.([]gts.Feature)
+				for _, x := range ff {
+					_ = x.Loc.String()
+				}
+				_ = seqio.INSDCFormatter{Table: ff, Prefix: "     ", Depth: 21}.String()
+				return true, fmt.Sprint(len(ff))
+			}
 		default:
 			continue
 		}
